@@ -206,7 +206,11 @@ def _flaky_serdes(serdes_mod, w, pos, spec):
                 if hit:
                     self._w.fire("serdes-error:" + which)
                     self._w.rec("serdes-fail", pos=self._pos, which=which, n=c[which])
-                    raise OSError(f"blob store {'write' if which == 'ser' else 'read'} failed")
+                    msg = f"blob store {'write' if which == 'ser' else 'read'} failed"
+                    if self._spec.get("cls"):
+                        # a store client that asks for the invocation to be retried (the SDK's InvocationError family)
+                        raise make_exc(self._spec["cls"], msg)
+                    raise OSError(msg)
 
             def serialize(self, value, serdes_context):
                 self._count("ser")
@@ -615,6 +619,16 @@ class Interp:
                        rc=bool(rec and (rec.get("ContextDetails") or {}).get("ReplayChildren")))
             if st.get("setlog"):
                 child_ctx.set_logger(CapLogger(self.w))  # a user-supplied logger installed on the child context
+            rr = st.get("rebuild_raise")
+            if rr and rec is not None and rec["Status"] == "SUCCEEDED":
+                # user code of the body meets a transient failure of its environment while the SDK runs the body again to
+                # rebuild a summarised result (the n-th such traversal, counted over the whole execution)
+                c = self.w.serdes_calls.setdefault(pos + "#rebuild", {"n": 0})
+                c["n"] += 1
+                if c["n"] in rr["n"]:
+                    self.w.fire("rebuild-raise:" + rr["cls"])
+                    self.w.rec("serdes-fail", pos=pos, which="rebuild", n=c["n"])
+                    raise make_exc(rr["cls"], "downstream throttled while rebuilding the result")
             obs = self.run_seq(child_ctx, st["body"], pos + "/c", item)
             v = self._ret_value(st.get("ret"), obs)
             self.w.rec("body-exit", pos=pos, bkind="child", v=canon(v))
